@@ -12,11 +12,14 @@ import (
 	"sync"
 	"testing"
 
+	"github.com/circlefin/noble-cctp/x/cctp/types"
+	sdk "github.com/cosmos/cosmos-sdk/types"
 	"github.com/cosmos/gogoproto/proto"
 	"pgregory.net/rapid"
 
 	"verif/harness/attest"
 	"verif/harness/chain"
+	"verif/harness/refcodec"
 	"verif/harness/sim"
 )
 
@@ -402,6 +405,14 @@ func RunC18Proc(t *testing.T) {
 		all = append(all, c, attesterVariant(c))
 	}
 	cases = all
+	if os.Getenv("VERIF_SHARD") == "" || strings.HasSuffix(os.Getenv("VERIF_SHARD"), ".0") {
+		lq, err := largeQuorumCases()
+		if err != nil {
+			t.Fatalf("HARNESS %v", err)
+		}
+		cases = append(cases, lq...)
+		st.Class("large-quorum-histories", len(lq))
+	}
 	v, harness := procCompare(cases)
 	if harness != "" {
 		t.Fatalf("HARNESS %s", harness)
@@ -415,6 +426,54 @@ func RunC18Proc(t *testing.T) {
 		st.Case(nt, nil, append(cls, "replays:two-processes")...)
 		st.Case("", nil, "replays:two-processes-attester-variant")
 	}
+}
+
+// largeQuorumCases: directed histories with 16, 24 and 32 required signatures; every block submits, for a
+// fresh nonce, an attestation with an adjacent duplicate at one position (rejected) and then the honest one
+// (accepted). Whatever an implementation does differently for large attestations (batches, worker pools
+// sized by GOMAXPROCS) has to give the same results in the child process, which runs with GOMAXPROCS=1.
+func largeQuorumCases() ([]*c18case, error) {
+	var out []*c18case
+	for _, t := range []int{16, 24, 32} {
+		gs := enumGenesis([4]int{0, 1, 2, 3})
+		gs.Attesters = nil
+		var ks []*attest.Key
+		for i := 0; i < t+3; i++ {
+			gs.Attesters = append(gs.Attesters, attest.K(i).Spelling(i%6))
+			ks = append(ks, attest.K(i))
+		}
+		gs.Threshold = uint32(t)
+		attest.SortByAddr(ks)
+		w, err := sim.NewWorld(gs)
+		if err != nil {
+			return nil, err
+		}
+		c := &c18case{Gen: gs}
+		by := sim.Acct(4)
+		for p := 0; p+1 < t; p++ {
+			m, _ := refcodec.EncodeMessage(&refcodec.Message{Version: 0, Source: 7, Dest: 4, Nonce: uint64(1000 + p), Sender: sim.Pad32([]byte{1}), Recip: sim.Pad32([]byte{2}), Caller: make([]byte, 32), Body: []byte{byte(p)}})
+			var good, bad []byte
+			for i, k := range ks[:t] {
+				sig := attest.Sign(m, k, attest.SigStyle{})
+				good = append(good, sig...)
+				if i == p+1 {
+					sig = attest.Sign(m, ks[p], attest.SigStyle{Twin: p%2 == 1})
+				}
+				bad = append(bad, sig...)
+			}
+			var blk c18block
+			for _, att := range [][]byte{bad, good} {
+				bz, err := w.Chain.EncodeTx([]sdk.Msg{&types.MsgReceiveMessage{From: by, Message: m, Attestation: att}})
+				if err != nil {
+					return nil, err
+				}
+				blk.Txs = append(blk.Txs, hex.EncodeToString(bz))
+			}
+			c.Blocks = append(c.Blocks, blk)
+		}
+		out = append(out, c)
+	}
+	return out, nil
 }
 
 // attesterVariant copies the case with every genesis attester replaced by another universe key.
